@@ -11,6 +11,7 @@ import (
 	"fmt"
 	"os"
 	"path/filepath"
+	"sort"
 	"strconv"
 	"strings"
 	"testing"
@@ -155,6 +156,7 @@ type snapRec struct {
 	data   map[string]string
 	atMs   int64 // clock when TakeSnapshot started
 	lossy  bool
+	dbs    string              // indices of the databases that existed (empty ones included) when a SAVE recorded this
 	window []map[string]string // conc: every state the server passed through while the copy was being made
 }
 
@@ -602,6 +604,37 @@ func (a *snapRun) save(arm *Op, rest []Op) {
 	before := a.doneSeen
 	a.names = append(a.names, "SAVE")
 	rec := snapRec{data: state, atMs: at, lossy: lossy(state)}
+	var dbIdx []int
+	for d := range a.inst.DB.VerifDump().DBs {
+		dbIdx = append(dbIdx, d)
+	}
+	sort.Ints(dbIdx)
+	rec.dbs = fmt.Sprint(dbIdx)
+	// "finds nothing new": the dataset is what the last completed snapshot holds (through the snapshot encoding's own
+	// projection), no deadline is anywhere near either instant, nothing was interrupted since - the attempt must
+	// not take a snapshot, and the last-save time stays
+	expectSkip := false
+	if n := len(a.good); n > 0 && arm == nil && len(a.alts) == 0 && a.p.Profile == "seq" && a.inflight == nil {
+		pj := func(m map[string]string) map[string]string {
+			out := map[string]string{}
+			for k, v := range m {
+				out[k] = jsonProjection(v)
+			}
+			return out
+		}
+		calm := func(m map[string]string) bool {
+			for _, v := range m {
+				if i := strings.LastIndex(v, " @"); i >= 0 {
+					if ms, err := strconv.ParseInt(v[i+2:], 10, 64); err == nil && ms <= max(at, a.good[n-1].atMs)+1000 {
+						return false
+					}
+				}
+			}
+			return true
+		}
+		// (the snapshot also records which databases exist, empty ones included: same set required)
+		expectSkip = calm(state) && calm(a.good[n-1].data) && mapsEqual(pj(state), pj(a.good[n-1].data)) && rec.dbs == a.good[n-1].dbs
+	}
 	if arm != nil {
 		a.disk.Arm(int(arm.N), arm.S, "")
 		a.names = append(a.names, "arm:"+arm.S)
@@ -624,6 +657,10 @@ func (a *snapRun) save(arm *Op, rest []Op) {
 		a.inflight = &rec
 		a.s.KillInstance(a.inst.ID)
 		a.checkRestore(a.nextImage(a.disk.Image), a.disk.Mode+"@"+a.disk.FiredAt)
+		return
+	}
+	if a.doneSeen > before && expectSkip && a.o.Sig == "" {
+		a.fail("nothing-new/snapshotted", fmt.Sprintf("SAVE at %d found the dataset exactly as the snapshot of %d holds it (%d keys) and nevertheless took a new snapshot and moved the last-save time", at, a.good[len(a.good)-1].atMs, len(state)))
 		return
 	}
 	if a.doneSeen > before {
